@@ -234,7 +234,10 @@ impl Table {
 
     /// Returns an accessor to a key's formatting
     pub fn key(&self, key: &str) -> Option<&'_ Key> {
-        self.items.get_full(key).map(|(_, key, _)| key)
+        self.items
+            .get_full(key)
+            .filter(|(_, _, value)| !value.is_none())
+            .map(|(_, key, _)| key)
     }
 
     /// Returns an accessor to a key's formatting
@@ -242,6 +245,7 @@ impl Table {
         use indexmap::map::MutableKeys;
         self.items
             .get_full_mut2(key)
+            .filter(|(_, _, value)| !value.is_none())
             .map(|(_, key, _)| key.as_mut())
     }
 
@@ -319,6 +323,7 @@ impl Table {
 
     /// Gets the given key's corresponding entry in the Table for in-place manipulation.
     pub fn entry<'a>(&'a mut self, key: &str) -> Entry<'a> {
+        self.remove_placeholder(key);
         // Accept a `&str` rather than an owned type to keep `InternalString`, well, internal
         match self.items.entry(key.into()) {
             indexmap::map::Entry::Occupied(entry) => Entry::Occupied(OccupiedEntry { entry }),
@@ -328,10 +333,18 @@ impl Table {
 
     /// Gets the given key's corresponding entry in the Table for in-place manipulation.
     pub fn entry_format<'a>(&'a mut self, key: &Key) -> Entry<'a> {
+        self.remove_placeholder(key.get());
         // Accept a `&Key` to be consistent with `entry`
         match self.items.entry(key.clone()) {
             indexmap::map::Entry::Occupied(entry) => Entry::Occupied(OccupiedEntry { entry }),
             indexmap::map::Entry::Vacant(entry) => Entry::Vacant(VacantEntry { entry }),
+        }
+    }
+
+    /// `Item::None` left behind by mutable indexing is not an entry
+    fn remove_placeholder(&mut self, key: &str) {
+        if self.items.get(key).map_or(false, |value| value.is_none()) {
+            self.items.shift_remove(key);
         }
     }
 
@@ -461,7 +474,8 @@ impl Table {
     where
         F: FnMut(&str, &mut Item) -> bool,
     {
-        self.items.retain(|key, value| keep(key, value));
+        self.items
+            .retain(|key, value| value.is_none() || keep(key, value));
     }
 }
 
@@ -506,7 +520,12 @@ impl IntoIterator for Table {
     type IntoIter = IntoIter;
 
     fn into_iter(self) -> Self::IntoIter {
-        Box::new(self.items.into_iter().map(|(k, value)| (k.into(), value)))
+        Box::new(
+            self.items
+                .into_iter()
+                .filter(|(_, value)| !value.is_none())
+                .map(|(k, value)| (k.into(), value)),
+        )
     }
 }
 
